@@ -39,4 +39,7 @@ ALPHABET = {
     'N1': 'hamlet/a/char/x/model/v001/w',         # typed, but its type has no path template
     'U1': 'bla/bla',                              # untyped
     'P1': 'hamlet',
+    'A1': 'hamlet/a/char/x',                      # asset folder entity (its sidecar lies beside other asset folders)
+    'G1': 'hamlet/a/char/x.y/model/v001/w/ma',    # a free value with a dot
+    'G2': 'hamlet/a/char/x.y/model/v001/p/ma',    # same folder as G1, other state: another file name, another sidecar
 }
